@@ -1,7 +1,8 @@
 (* Model of the client side of the NTS key exchange as it is in /repo now:
      net/ntske/ntske.go     ReadData (record loop), ExportKeys
      net/ntske/ntske_ip.go  dialTLS (ALPN check, defaults), exchangeDataTLS
-     net/ntske/fetcher.go   exchangeKeys (TLS branch), FetchData, StoreCookie
+     net/ntske/ntske_scion.go  dialQUIC (defaults), exchangeDataQUIC
+     net/ntske/fetcher.go   exchangeKeys (TLS branch and QUIC branch), FetchData, StoreCookie
    and of the server message of core/server/ntske.go newNTSKEMsg.
    Byte strings are lists of Z in 0..255.  No proofs in this file.  Self-contained on purpose
    (depends on Base.Ints only). *)
@@ -196,6 +197,35 @@ Definition dial_tls (p : peer) : kdata * Z :=
     end
   else (kzero, e_dial).
 
+(* ---------- QUIC dial (NTS-KE over SCION) ---------- *)
+
+(* crypto/tls inside QUIC (third party, modelled; RFC 9001, 8.1): an application protocol is
+   mandatory.  A client that offers a list gets a session only if the server selects one of the
+   offered protocols (the server picks the first of ITS protocols that the client offered); a
+   server without a list, or no common protocol, ends the handshake with an alert *)
+Definition quic_negotiate (cli srv : list bytes) : handshake :=
+  match cli with
+  | [] => match srv with [] => HsOk [] | _ => HsFail end
+  | _ => match first_common srv cli with Some p => HsOk p | None => HsFail end
+  end.
+
+Definition ntp_port_scion := 10123.    (* ntp.ServerPortSCION *)
+
+(* dialQUIC: config.NextProtos is overwritten with [ntske/1]; a path to the remote AS is chosen
+   (none: error), scion.DialQUIC performs the handshake; Data{Server: host of the configured
+   remote address, Port: 10123}.  There is no ALPN check after the dial: the handshake itself
+   fails unless the peer selects ntske/1.  For a QUIC peer: p_up = a path exists and a QUIC
+   listener answers at the remote address, p_host = host part of Fetcher.QUIC.RemoteAddr,
+   p_stream = what the server sends on the stream the client opens, before it finishes the
+   stream or the connection ends. *)
+Definition dial_quic (p : peer) : kdata * Z :=
+  if p_up p then
+    match quic_negotiate [alpn_ntske] (p_alpn p) with
+    | HsFail => (kzero, e_dial)
+    | HsOk _ => (set_port (set_server kzero (p_host p)) ntp_port_scion, 0)
+    end
+  else (kzero, e_dial).
+
 (* ---------- ExportKeys ---------- *)
 
 Definition exporter_label : bytes := bytes_of_string "EXPORTER-network-time-security".
@@ -238,13 +268,37 @@ Definition exchange_keys (ex : exporter) (p : peer) : kdata * Z :=
          else if negb (k_algo d2 =? aes_siv_cmac_256) then (d2, e_algo) else (d2, 0)
   end.
 
+(* exchangeKeys, QUIC branch (Fetcher.QUIC.Enabled): st = f.data before the call.  When the dial
+   fails exchangeKeys returns before f.data is touched; otherwise f.data = the Data returned by
+   dialQUIC (fix commit 38f59d0; before it the value was dropped and the record loop wrote into
+   what the previous exchange had left), then exchangeDataQUIC (request written to a new stream,
+   ReadData on that stream through the pointer), then ExportKeys on the TLS state of the QUIC
+   connection, then the same checks as on the TLS branch *)
+Definition exchange_keys_quic (ex : exporter) (st : kdata) (p : peer) : kdata * Z :=
+  let '(d0, e0) := dial_quic p in
+  if negb (e0 =? 0) then (st, e0) else
+  let '(d1, e1) := read_stream (p_stream p) d0 in
+  if negb (e1 =? 0) then (d1, e1) else
+  let '(d2, e2) := export_keys ex d1 in
+  if negb (e2 =? 0) then (d2, e2) else
+  match k_cookies d2 with
+  | [] => (d2, e_nocookies)
+  | _ => if existsb cookie_too_long (k_cookies d2) then (d2, e_cookielen)
+         else if negb (k_algo d2 =? aes_siv_cmac_256) then (d2, e_algo) else (d2, 0)
+  end.
+
+(* exchangeKeys of a Fetcher whose transport flag QUIC.Enabled is [quic]: f.data before the call
+   -> f.data after it and the error class *)
+Definition exchange_keys_of (quic : bool) (ex : exporter) (st : kdata) (p : peer) : kdata * Z :=
+  if quic then exchange_keys_quic ex st p else exchange_keys ex p.
+
 (* FetchData: (new state, returned data or error class, whether an exchange was attempted) *)
 Record fetch_out := { fo_err : Z; fo_data : kdata; fo_exchanged : bool }.
 
-Definition fetch_data (ex : exporter) (st : kdata) (p : peer) : kdata * fetch_out :=
+Definition fetch_data (quic : bool) (ex : exporter) (st : kdata) (p : peer) : kdata * fetch_out :=
   match k_cookies st with
   | [] =>
-    let '(d, e) := exchange_keys ex p in
+    let '(d, e) := exchange_keys_of quic ex st p in
     if e =? 0 then (set_cookies d (tl (k_cookies d)), {| fo_err := 0; fo_data := d; fo_exchanged := true |})
     else (kzero, {| fo_err := e; fo_data := kzero; fo_exchanged := true |})
   | _ :: rest =>
